@@ -115,6 +115,17 @@ pub fn enumerate(field_idx: usize, thorough: bool) -> Vec<AmtCase> {
     } else {
         ccys.push("");
     }
+    // every ISO-4217 code at least once in both tiers: the currencies outside the quick selection get a
+    // reduced sweep (all decimal counts, one magnitude) in two representative fields
+    let sweep: Vec<&str> = if wc && !thorough && (f == "Field32B" || f == "Field62F") {
+        refs::CURRENCIES
+            .iter()
+            .map(|(c, _)| *c)
+            .filter(|c| !ccys.contains(c))
+            .collect()
+    } else {
+        Vec::new()
+    };
     let mut out = Vec::new();
     let mk = |ccy: &str, amount: String, spelling: &str| AmtCase {
         field: f.to_string(),
@@ -126,6 +137,13 @@ pub fn enumerate(field_idx: usize, thorough: bool) -> Vec<AmtCase> {
         with_ccy: wc,
         spelling: spelling.to_string(),
     };
+    for ccy in &sweep {
+        for nd in 0..=5usize {
+            let int = digits_of(3, nd + 3);
+            let frac = digits_of(nd, 3);
+            out.push(mk(ccy, format!("{int},{frac}"), "currency-sweep"));
+        }
+    }
     for ccy in &ccys {
         for nd in 0..=5usize {
             for ni in [1usize, 2, 7, 10, 12, 13, 14, 15] {
@@ -364,7 +382,7 @@ pub fn oracle(c: &AmtCase, obs: &mut Obs) -> Vec<Violation> {
 }
 
 pub fn run(ctx: &Ctx) {
-    ctx.add_rule("enumerated grid: 20 amount/rate-bearing field types x ISO-4217 currencies (quick: 4-6 per minor-unit class 0/2/3/4; thorough: all) x 0..5 decimals x integer digits {1,2,7,10,12,13,14,15} x spellings {comma, dot, no separator, no integer part, trailing zero, leading zeros}; for the currency-less fields (19, 36, 37H, 61) total lengths max-1 .. max+2 with 1-6 integer digits, with and without leading zeros; plus 21 non-decimal spellings a float parser would take; non-trivial = all; distinct by (field, content)");
+    ctx.add_rule("enumerated grid: 20 amount/rate-bearing field types x ISO-4217 currencies (quick: 4-6 per minor-unit class 0/2/3/4 in full, every other code in a reduced sweep - all decimal counts, one magnitude - through 32B and 62F; thorough: all in full) x 0..5 decimals x integer digits {1,2,7,10,12,13,14,15} x spellings {comma, dot, no separator, no integer part, trailing zero, leading zeros}; for the currency-less fields (19, 36, 37H, 61) total lengths max-1 .. max+2 with 1-6 integer digits, with and without leading zeros; plus 21 non-decimal spellings a float parser would take; non-trivial = all; distinct by (field, content)");
     ctx.exhaustive("the grid is enumerated completely");
     ctx.assume("ISO-4217 minor-unit table in harness/src/refs.rs; amounts with more than 15 significant digits are a separate class (an f64 cannot hold them)");
     let thorough = !ctx.quick();
